@@ -499,6 +499,24 @@ func (e *Env) binary(x *EBin) tv {
 	}
 	l, r := e.eval(x.L), e.eval(x.R)
 	if x.Op == "==" || x.Op == "!=" {
+		// the address of a struct field compared with nil: nil exactly when the struct pointer is
+		av, isA := l.v.(*AddrVal)
+		other := r
+		if !isA {
+			av, isA = r.v.(*AddrVal)
+			other = l
+		}
+		if isA {
+			if ot, ok := other.v.(*Term); ok && other.t == types.Typ[types.UntypedNil] && ot.S == NilPtr.S {
+				isNil := Eq(parr(av.Ptr), NilRef)
+				if x.Op == "!=" {
+					isNil = Not(isNil)
+				}
+				return tv{isNil, boolT}
+			}
+		}
+	}
+	if x.Op == "==" || x.Op == "!=" {
 		var eq *Term
 		_, ls := l.v.(*StructVal)
 		_, rs := r.v.(*StructVal)
@@ -639,6 +657,9 @@ func (e *Env) selector(x *ESel) tv {
 		return tv{u.subPtr(structT, s.Field(idx).Name(), p), types.NewPointer(ft)}
 	}
 	sort, _ := u.sortOf(ft)
+	if fv, ok := u.loadLocVal(e.st, fieldMapName(structT, x.Name), sort, p); ok {
+		return tv{fv, ft}
+	}
 	lv := u.loadLoc(e.st, fieldMapName(structT, x.Name), sort, p)
 	e.addFact(lv, ft)
 	return tv{lv, ft}
